@@ -14,7 +14,7 @@ final_step one of the generated steps, what shape comes out.
 """
 from fractions import Fraction as Fr
 
-from .srcmodel import AnalysisError
+from .srcmodel import AnalysisError, called_names
 from .algebra import Poly, Rat, Z8
 from . import ndarr
 from .ndarr import Arr, Unk, Choice, InterpRaise, InterpTypeError, InterpValueError, ew1, ewn, asarr, _prod
@@ -788,8 +788,10 @@ class Explorer(object):
                     pending.append(list(decisions) + [(False,) + site[:2] + (tags_of(value),)])
                 by_site[site] = k
                 decisions.append((choice,) + site[:2] + (tags_of(value),))
+                fn_clo = getattr(frame, 'fn', None)
                 self.site_info[site[:2]] = (interp.stack[-1] if getattr(interp, 'stack', None) else '', classify_predicate(base_val),
-                                            logical_shape(base_val))
+                                            logical_shape(base_val),
+                                            frozenset(called_names(fn_clo.node)) if fn_clo is not None and hasattr(fn_clo, 'node') else frozenset())
                 if oid is not None:
                     by_obj[oid] = (choice, base_val.expr)     # keeps the expression alive: ids stay unique
                 return choice != neg
